@@ -90,6 +90,17 @@ def enumerate_cases(tier: str, shard: int, nshards: int):
             yield {"kind": "enum", "src": "".join(combo)}
 
 
+    # the pathological families of C20 at two sizes: structure must also hold at scale
+    from .c20 import F as FAMILIES
+
+    for name in sorted(FAMILIES):
+        for nn in (40, 700) if tier == "quick" else (40, 700, 8000):
+            idx += 1
+            if idx % nshards != shard:
+                continue
+            yield {"kind": "enum", "src": FAMILIES[name](nn), "family": name}
+
+
 _EMD: dict = {}
 
 
